@@ -9,6 +9,7 @@ group request other than the leave can be issued (check-after-yield on the
 join routine); stop cancels every handle.  Not decided: other members.
 """
 import ast
+import copy
 
 from ..cfg import known_falsy, known_truthy
 from ..model import self_attr, unparse, walk_body_shallow
@@ -26,8 +27,9 @@ EXPLANATION = (
     "join and the heartbeat preconditions; G-YIELD: a group request that follows a *real* suspension (yield of a "
     "possibly-Deferred value; synchronous generate_assignments is not one) must be dominated by a re-check of "
     "_stopping located after that suspension (facts on self.* are killed at suspensions)."
+    ' Also: ConsumerGroup.stop() shuts the consumers down before leaving and sweeps them again after the fence is up (R2, finding F41); the fence is never lowered outside start (R7); a commit is abandoned without retry only for non-retriable broker answers (R3).'
 )
-SHARED = [('C13', ['R5'], 'consumers shut down before a rejoin commit everything they processed'), ('C03', ['R6', 'R7'], "partition consumers start from the group's committed position and commit with their generation and member id"), ('C14', ['R3'], 'a consumer that cannot learn the committed position fails instead of starting elsewhere'), ('C02', ['R6'], "consumers start from the group's committed position")]
+SHARED = [('C17', ['R8'], 'a member whose generation has been superseded does rejoin: its consumers do not run on under the old generation'), ('C13', ['R5'], 'consumers shut down before a rejoin commit everything they processed'), ('C03', ['R6', 'R7'], "partition consumers start from the group's committed position and commit with their generation and member id"), ('C14', ['R3'], 'a consumer that cannot learn the committed position fails instead of starting elsewhere'), ('C02', ['R6'], "consumers start from the group's committed position")]
 ASSUMPTIONS = [
     "Twisted inlineCallbacks: other code (stop()) can run at every yield of a pending Deferred, not between yields",
     "Consumer.shutdown()/stop() semantics are those checked by C13",
@@ -69,7 +71,7 @@ def run(ctx):
 
     # ---- R2 shut down before (re)join
     r = ctx.rule("R2", "the prepare hook is awaited on every path before the join request; it shuts every consumer down; so does stop() before it leaves, and sweeps after",
-                 5, "B")
+                 6, "B")
     cf = ctx.cfg(jas)
     joins = [n for n in cf.nodes if any(call_name(x) == "send_join_group_request" for x in n.calls())]
     need(len(joins) == 1, "join request call not found once in _join_and_sync")
@@ -103,6 +105,60 @@ def run(ctx):
             "%s#swap-shutdown-wait" % sdc.qname, "graceful shutdown does not empty the table, shut every consumer down and "
             "wait for all of them", where(sdc, sdc.node))
 
+    # when the graceful wait fails (one consumer's commit was rejected, say) every consumer of the swapped-out table is
+    # force-stopped - the others may still be busy in their processor and would outlive the generation
+    exn = [n for n in cs.nodes if n.kind == "except" and wait and n.id in cs.reach([wait[0].id])]
+    okfb = False
+    swapv = None
+    for n in swap:
+        st_ = n.stmt
+        if isinstance(st_, ast.Assign) and isinstance(st_.targets[0], ast.Tuple) and isinstance(st_.value, ast.Tuple):
+            for t_, v_ in zip(st_.targets[0].elts, st_.value.elts):
+                if isinstance(t_, ast.Name) and norm(v_) == "self.consumers":
+                    swapv = t_.id
+    # the force-stop walks what the graceful shutdown walked: the same loop nest (same iterables, outermost first) around
+    # `<consumer>.stop()` in the handler as around `<consumer>.shutdown()`, rooted in the swapped-out table
+    parents_ = {}
+    for p_ in ast.walk(sdc.node):
+        for ch_ in ast.iter_child_nodes(p_):
+            parents_[ch_] = p_
+
+    def _nest(call_):
+        loops_, x_ = [], call_
+        while x_ in parents_:
+            x_ = parents_[x_]
+            if isinstance(x_, ast.For):
+                loops_.append(x_)
+        loops_.reverse()
+        # the loop variables of the enclosing loops are named by their depth, so that two nests over the same iterables
+        # compare equal whatever their variables are called
+        ren, sig = {}, []
+        for d_, lp_ in enumerate(loops_):
+            it_ = copy.deepcopy(lp_.iter)
+            for y in ast.walk(it_):
+                if isinstance(y, ast.Name) and y.id in ren:
+                    y.id = ren[y.id]
+            sig.append(norm(it_))
+            for y in ast.walk(lp_.target):
+                if isinstance(y, ast.Name):
+                    ren[y.id] = "_L%d" % d_
+        return tuple(sig)
+    grace = [c_ for c_ in calls_in(sdc, "shutdown") if isinstance(c_.func, ast.Attribute) and isinstance(c_.func.value, ast.Name)]
+    gsig = {_nest(c_) for c_ in grace}
+    if swapv is None:
+        for x in walk_body_shallow(sdc.body):
+            if isinstance(x, ast.Assign) and len(x.targets) == 1 and isinstance(x.targets[0], ast.Name) and norm(x.value) == "self.consumers":
+                swapv = x.targets[0].id
+    for e_ in exn:
+        hstops = [c_ for c_ in ast.walk(e_.stmt) if isinstance(c_, ast.Call) and call_name(c_) == "stop" and isinstance(c_.func.value, ast.Name)]
+        roots_ = {swapv} | {x.targets[0].id for x in walk_body_shallow(sdc.body) if isinstance(x, ast.Assign) and isinstance(x.targets[0], ast.Name)
+                            and isinstance(x.value, ast.Name) and x.value.id == swapv} if swapv else set()
+        if hstops and gsig and all(_nest(c_) in gsig and _nest(c_) and any(r_ in names_in(ast.parse(part, mode="eval").body) for part in _nest(c_) for r_ in roots_) for c_ in hstops):
+            okfb = True
+    r.check(bool(exn) and okfb, "%s#failed-wait-stops-every-consumer" % sdc.qname, "when waiting for the graceful shutdowns fails, not every consumer of the "
+            "old generation is force-stopped", where(sdc, exn[0].stmt if exn else sdc.node), "one consumer's commit is rejected while another is "
+            "busy in its processor: the join goes out with that consumer alive; it later commits with the stale generation")
+
     # the group is left only after the consumers of the current generation have shut down (and committed): a LeaveGroup
     # sent first makes their commits those of a member that is no longer in the group
     gstop = prog.method(gci, "stop")
@@ -119,7 +175,8 @@ def run(ctx):
     # Coordinator.stop) a heartbeat answered REBALANCE_IN_PROGRESS makes the member rejoin, and the completed join starts
     # the consumers of the new generation while stop() is still waiting for the old ones
     stc_ = ctx.func(GROUP + ".stop_consumers")
-    sweep = [n for n in cgs.nodes if any(prog.resolve_call(gstop, x) in (stc_, sdc) for x in n.calls()) and leave and
+    # (the forcible stop: a graceful shutdown would commit with the generation that has just been left, and wait for processors)
+    sweep = [n for n in cgs.nodes if any(prog.resolve_call(gstop, x) is stc_ for x in n.calls()) and leave and
              all(cgs.dominates([lv_.id], n.id) for lv_ in leave)]
     r.check(bool(sweep) and not cgs.normal_exits_from(leave[0].id if leave else cgs.entry.id, avoid=[n.id for n in sweep]),
             "%s#no-consumer-left-after-the-fence" % gstop.qname,
